@@ -472,6 +472,15 @@ def _spectrum_class(R):
         return w, False, "zero matrix"
     gaps = np.abs(w[:, None] - w[None, :]) + np.eye(len(w)) * 1e9
     if np.min(gaps) < 0.2 * m:
+        # repeated eigenvalues are in domain for real symmetric / Hermitian
+        # matrices (reflections, orthogonal projections plus a scalar...): those
+        # are diagonalisable with a perfectly conditioned eigenbasis, whatever
+        # the multiplicities, provided distinct eigenvalues are either equal to
+        # rounding or well separated
+        herm = float(np.max(np.abs(R - np.conj(R.T)))) <= 1e-13 * m
+        clustered = bool(np.all((gaps <= 1e-9 * m) | (gaps >= 0.2 * m)))
+        if herm and clustered:
+            return w, True, None
         return w, False, "eigenvalue gap < 0.2 max|eigenvalue|"
     if np.linalg.cond(V) > 1e3:
         return w, False, "eigenvector matrix condition > 1e3"
@@ -966,12 +975,62 @@ def real_block_matrix(w):
     return D
 
 
+STRUCTURES = ["generic", "generic", "diagonal", "triangular", "block", "symmetric-repeated", "affine-map"]
+
+
+def structured_case(rng, n, kind, structure, w):
+    """(matrix acting on COLUMN vectors, spectrum) with the requested structure.
+    diagonal / triangular / block / affine-map: eigenvectors with exact zero
+    coordinates (seeded change C16-r4-3: a phase normalisation by
+    sign(v[0]) zeroes them); symmetric-repeated: real symmetric with repeated
+    eigenvalues, e.g. hyperplane reflections (seeded change C16-r4-1: the
+    transposed eigenvector frame returned as the inverse)."""
+    cx = kind == "complex"
+    D = np.diag(w) if cx else real_block_matrix(w)
+    if structure == "diagonal":
+        P = np.eye(n)[rng.permutation(n)]
+        return P @ D @ P.T, w
+    if structure == "triangular":
+        U = np.triu(rng.normal(size=(n, n)) + (1j * rng.normal(size=(n, n)) if cx else 0), 1) * 0.3 + np.eye(n)
+        A = U @ D @ np.linalg.inv(U)
+        return (np.triu(A) if kind != "conjugate" else A), w
+    if structure == "block":
+        k = max(1, n // 2)
+        S = np.eye(n, dtype=complex if cx else float)
+        S[k:, k:] = lin.rand_cond_matrix(rng, n - k, 10.0, complex_=cx) if n - k >= 1 else 1.0
+        if kind == "conjugate":
+            return lin.rand_cond_matrix(rng, n, 20.0) @ D @ np.eye(n), w     # keep generic for 2x2 blocks
+        return S @ D @ np.linalg.inv(S), w
+    if structure == "symmetric-repeated":
+        q, _ = np.linalg.qr(rng.normal(size=(n, n)))
+        vals = [(-1.0,) + (1.0,) * (n - 1), (2.0,) * (n - 1) + (5.0,), (3.0, 3.0) + tuple(-1.0 - i for i in range(n - 2))]
+        ww = np.array(vals[int(rng.integers(len(vals)))][:n], dtype=float)
+        if n == 2:
+            ww = np.array([-1.0, 1.0])
+        A = q @ np.diag(ww) @ q.T
+        return (A + A.T) / 2.0, ww + 0j
+    if structure == "affine-map":
+        # the matrix of an affine linear map in chart 0: 1 (+) L, eigenvectors of L
+        # lie in x_0 = 0 exactly
+        L = lin.rand_cond_matrix(rng, n - 1, 10.0, complex_=cx)
+        wl = w[:n - 1]
+        Dl = np.diag(wl) if cx else None
+        if Dl is None or kind == "conjugate":
+            return None, None
+        A = np.zeros((n, n), dtype=complex)
+        A[0, 0] = w[n - 1]
+        A[1:, 1:] = L @ Dl @ np.linalg.inv(L)
+        return A, np.concatenate([wl, w[n - 1:]])
+    return None, None
+
+
 def wl_eigen(run, rng, idx):
     from geometry_tools import projective
     n = 2 + idx % 5
     kind = ["real", "conjugate", "complex"][(idx // 5) % 3]
     batch = [(), (3,), (2, 2)][(idx // 15) % 3]
     colv = (idx // 45) % 2 == 0
+    structure = STRUCTURES[(idx // 3) % len(STRUCTURES)]
     mats = np.empty(batch + (n, n), dtype=complex if kind == "complex" else float)
     specs = {}
     shared = None
@@ -982,13 +1041,24 @@ def wl_eigen(run, rng, idx):
                 shared = w
         else:
             w = shared                       # same spectrum in every unit
-        S = lin.rand_cond_matrix(rng, n, 20.0, complex_=(kind == "complex"))
-        D = np.diag(w) if kind == "complex" else real_block_matrix(w)
-        mats[ix] = S @ D @ np.linalg.inv(S)
+        A = None
+        if structure != "generic":
+            wr = w if kind != "real" else w.real + 0j
+            A, w2 = structured_case(rng, n, "real" if kind == "real" else kind, structure, wr)
+            if A is not None and (kind == "complex" or np.max(np.abs(np.imag(A))) == 0):
+                w = w2
+                A = A if kind == "complex" else np.real(A)
+            else:
+                A = None
+        if A is None:
+            S = lin.rand_cond_matrix(rng, n, 20.0, complex_=(kind == "complex"))
+            D = np.diag(w) if kind == "complex" else real_block_matrix(w)
+            A = S @ D @ np.linalg.inv(S)
+        mats[ix] = A
         specs[ix] = w
     run.current_case = {"workload": "eigen", "n": n, "kind": kind, "batch": list(batch), "matrix": mats,
-                        "column_vectors": colv}
-    run.note_class("eigen", n, kind, batch, colv)
+                        "column_vectors": colv, "structure": structure}
+    run.note_class("eigen", n, kind, batch, colv, structure)
     T = projective.Transformation(mats.copy(), column_vectors=colv)
     first = specs[next(iter(specs))]
     common = [lam for lam in first if all(np.min(np.abs(w - lam)) < 1e-12 for w in specs.values())]
